@@ -2802,7 +2802,7 @@ def check(ctx):
                 'small ints, dyadics, mixed int/float equal values (2 vs 2.0), 1e-9..1e-12-scale floats, 1e9-scale '
                 'floats with relative gaps 1e-6..1e-12, neighbouring doubles; rare duplicates and ill-formed operands); merge trees over random contiguous splits (length 0-40 quick / 0-150 '
                 'thorough); non-trivial = distinct script with >= 4 ops / distinct case with >= 2 observations')
-    core.prove(ctx, MODULE, generated=['C06Result'], drivers=[DRIVER], scratch=ctx.scratch)
+    core.prove(ctx, MODULE, generated=['C06Result', 'C06Sim'], drivers=[DRIVER], scratch=ctx.scratch)
     ctx.required_branches = ['corpus', 'op:ma', 'op:aa', 'op:cb', 'op:m', 'op:u', 'tree:sum', 'tree:ratio', 'tree:misc',
                              'tree:choice', 'err:AssertionError', 'err:ZeroDivisionError', 'err:ValueError',
                              'err:IndexError', 'err:KeyError', 'err:RuntimeError',
